@@ -74,6 +74,8 @@ def eval_node(node, names):
     if isinstance(node, ast.Name):
         if node.id in ("True", "False"):
             return V.const(node.id == "True")
+        if node.id == "inf":
+            return V.const(float("inf"))      # how Python and numpy print an infinite float
         if not re.fullmatch(r"q\d+", node.id):
             raise Bad(f"name {node.id}")
         return V.var(node.id)
@@ -84,7 +86,7 @@ def terms_in_order(node):
     """flatten the top-level +/- chain -> list of (sign, term node) in printing order"""
     if isinstance(node, ast.Expression):
         return terms_in_order(node.body)
-    if isinstance(node, ast.BinOp) and isinstance(node.op, (ast.Add, ast.Sub)) and any(isinstance(x, ast.Name) for x in ast.walk(node)):
+    if isinstance(node, ast.BinOp) and isinstance(node.op, (ast.Add, ast.Sub)) and any(isinstance(x, ast.Name) and x.id != "inf" for x in ast.walk(node)):
         # (a purely numeric sum such as (-0-2j) is one parenthesised complex coefficient, not two terms)
         return terms_in_order(node.left) + [(-1 if isinstance(node.op, ast.Sub) else 1, node.right)]
     return [(1, node)]
@@ -298,7 +300,7 @@ def run_case(case, R):
                 render_and_check(R, spec(names, (), t), f"{names} {t}", DISPLAY, SIGNS[:3], ["0-d", "names"])
                 render_and_check(R, spec(names, (2,), [(e, [c, -c]) for e, c in t]), f"{names} {t} array", DISPLAY[:2], SIGNS[:2], ["array", "names"])
     elif k == "extra":
-        specs = [sp for _, sp in space.wide_specs()] + [sp for _, sp in space.wide_array_specs()] + space.magnitude_specs()
+        specs = [sp for _, sp in space.wide_specs()] + [sp for _, sp in space.wide_array_specs()] + space.magnitude_specs() + space.nonfinite_specs()
         for i, sp in enumerate(specs):
             R.state(("extra", i))
             render_and_check(R, sp, f"extra {i} {sp['n'][:3]} {str(sp['t'])[:60]}", [DISPLAY[0], DISPLAY[6]], SIGNS[:2], ["wide_or_magnitude"])
